@@ -28,16 +28,51 @@ def strategy(tier):
     tricky = st.sampled_from(['""', '"a\\"b@"', '"\\"@\\""', "x", '"x"', 'a@\\"', '\\"@', "[[]]", '" lead@"', '"a@\\\\"'])
     one = st.one_of(st.sampled_from(VALUES), tricky)
     vals = G.weighted((1, st.just([])), (3, st.lists(one, min_size=1, max_size=1)), (2, st.lists(one, min_size=2, max_size=5)))
-    p = G.Profile(kinds={"set", "option", "func", "block", "generic"}, p_doc_mostly=True, set_values=vals,
+    docline = G.weighted((4, G.benign_line()), (1, st.just("")),
+                         (2, st.sampled_from(["See the :type: field below.", ":type: path", "The :Default value: is generated.",
+                                              ":Default value: by hand", ":Help text: mine", "Mentions :Help text: inline."])))
+    doc = st.fixed_dictionaries({"lines": st.lists(docline, max_size=4), "form": st.just("leader"), "mpos": st.integers(0, 8)})
+    p = G.Profile(kinds={"set", "option", "func", "block", "generic"}, p_doc_mostly=True, set_values=vals, doc=doc,
                   option_help=st.sampled_from(['"Help @"', "HELP@", '"help: with colon @"', '"he said \\"@\\""', "${help@}",
                                                '""', "[[bracket help @]]"]),
-                  max_items=6 if tier == "quick" else 10, depth=2, dangling=False, groups=False, moddoc=False)
-    return st.fixed_dictionaries({"module": G.module(p), "layout": G.layout_choices(24)})
+                  max_items=6 if tier == "quick" else 10, depth=2, dangling=False, groups=False, moddoc=False, dups=True)
+    return st.fixed_dictionaries({"module": G.module(p), "layout": G.layout_choices(24), "twins": st.booleans()})
+
+
+def with_twins(module):
+    """After a documented set(name a b ...) with plain values add set(name ab ...): the same characters, other boundaries."""
+    import copy
+    mod = copy.deepcopy(module)
+
+    def plain(v):
+        return v and v[0] not in '"[$' and "\\" not in v and not v.endswith("]")
+
+    def rec(items):
+        out = []
+        for it in items:
+            out.append(it)
+            if "body" in it:
+                it["body"] = rec(it["body"])
+            if it["k"] == "set" and it.get("doc") and len(it["values"]) >= 2 and plain(it["values"][0]) and plain(it["values"][1]):
+                tw = copy.deepcopy(it)
+                tw["values"] = [it["values"][0] + it["values"][1]] + it["values"][2:]
+                tw["doc"] = {"lines": ["Twin of the previous command. TW" + it["doc"]["marker"]], "form": "leader",
+                             "marker": "TW" + it["doc"]["marker"]} if it["doc"].get("marker") else copy.deepcopy(it["doc"])
+                out.append(tw)
+            if it["k"] == "option" and it.get("doc") and it["default"] is not None and plain(it["help"]) and plain(it["default"]):
+                tw = copy.deepcopy(it)
+                tw["help"], tw["default"] = it["help"] + it["default"], None
+                out.append(tw)
+        return out
+    mod["items"] = rec(mod["items"])
+    return mod
 
 
 def evaluate(case):
     res = Result()
-    module = case["module"]
+    module = with_twins(case["module"]) if case.get("twins") else case["module"]
+    if case.get("twins"):
+        res.labels.append("twin-commands")
     src = R.render(module, case["layout"])
     sets = [it for it, _, _ in G.walk(module["items"]) if it["k"] == "set" and it["doc"]]
     opts = [it for it, _, _ in G.walk(module["items"]) if it["k"] == "option"]
@@ -76,4 +111,5 @@ def evaluate(case):
 
 
 def describe(case):
-    return {"source": R.render(case["module"], case["layout"])}
+    module = with_twins(case["module"]) if case.get("twins") else case["module"]
+    return {"source": R.render(module, case["layout"])}
